@@ -196,6 +196,14 @@ def run(ctx):
             c.ob("R6", okc, cf6, f"{v}:cut-is-a-disjunction", "each bound alone cuts the expansion" if okc else
                  f"the cut test '{norm(t.test)}' is not a disjunction of 'counter > bound' tests: the depth bound (or the budget) no longer cuts on its own, "
                  f"so a linear self-enqueueing chain recurses until RecursionError (or a branching one runs 2**depth expansions)", t)
+        # the budget is at least the machine's maxIterations (a min(...) with the depth bound would cut legitimate expansions)
+        for bn in {nm for t in cut_tests for nm in names_in(t.test)}:
+            for a_ in assignments_to(cf6, bn):
+                v_ = getattr(a_, "value", None)
+                if v_ is not None and "max_iterations" in norm(v_):
+                    bad_min = any(isinstance(y, ast.Call) and isinstance(y.func, ast.Name) and y.func.id == "min" for y in ast.walk(v_))
+                    c.ob("R6", not bad_min, cf6, f"{v}:budget-at-least-max-iterations", "the expansion budget is not smaller than maxIterations" if not bad_min else
+                         f"'{norm(v_)}' takes the smaller of maxIterations and the depth bound as the budget: expansions shorter than maxIterations are cut", a_)
         for a in monotone:
             for f_ in roles(ctx, v).funcs:
                 for w in attr_writes(f_):
